@@ -314,6 +314,15 @@ def run_atheris(prop_id, mod, tier, seed, t_end):
     import shutil
     import subprocess
 
+    deps = os.path.join(VERIF_DIR, ".deps")
+    probe = [sys.executable, "-c", f"import sys; sys.path.append({deps!r}); import atheris"]
+    if subprocess.run(probe, capture_output=True).returncode != 0:
+        os.makedirs(deps, exist_ok=True)
+        subprocess.run([sys.executable, "-m", "pip", "install", "--quiet", "--no-index", "--find-links",
+                        "/opt/veriftools/wheels", "--target", deps, "atheris"], capture_output=True)
+        if subprocess.run(probe, capture_output=True).returncode != 0:
+            # the second engine is a second opinion: its absence does not void the primary result
+            return {"engine": "atheris", "skipped": "atheris is not importable and could not be installed offline"}, None
     nproc = int(os.environ.get("VERIF_ATHERIS_PROCS", "4"))
     runs = int(os.environ.get("VERIF_ATHERIS_RUNS", getattr(mod, "ATHERIS_RUNS", 40000)))
     max_time = max(30, int(min(t_end - time.time(), int(os.environ.get("VERIF_ATHERIS_TIME", "900")))))
@@ -568,7 +577,7 @@ def main(argv=None):
                 return 1
             print(f"HARNESS-ERROR: atheris recorded {failing} but it passes when replayed (flaky)")
             return 2
-        if any(rc != 0 for rc in summary["exit_codes"]):
+        if any(rc != 0 for rc in summary.get("exit_codes", [])):
             print(f"HARNESS-ERROR: an atheris process failed without a violation: {summary['exit_codes']}")
             return 2
     path = write_evidence(prop_id, mod, tier, seed, agg, wall, 0, extra)
